@@ -1,0 +1,24 @@
+//go:build verif
+
+package file
+
+// VerifPointHook, when set, is called at every crash point of the file store (label identifies it).
+var VerifPointHook func(label string)
+
+// VerifSyncHook, when set, is called after a file has been fsynced.
+var VerifSyncHook func(fname string)
+
+func verifPoint(label string) {
+	if VerifPointHook != nil {
+		VerifPointHook(label)
+	}
+}
+
+func verifSynced(fname string) {
+	if VerifSyncHook != nil {
+		VerifSyncHook(fname)
+	}
+	if VerifPointHook != nil {
+		VerifPointHook("synced:" + fname)
+	}
+}
